@@ -60,7 +60,7 @@ def gen_hashes(rng):
 
 
 DISTURBANCES = ['new_version', 'new_version_dict', 'revoke', 'illegal_new_version', 'marking', 'deepcopy', 'serialize', 'store', 'bundle',
-                'remove_custom', 'equality']
+                'remove_custom', 'equality', 'refused_in_id_generation', 'refused_in_id_generation']
 
 
 def gen_nested_hashes(rng):
@@ -263,7 +263,7 @@ class C06(Profile):
     owns_registries = True
     tiers = {'quick': 4000, 'thorough': 200000}
     wall_cap = {'quick': 900, 'thorough': 5 * 3600}
-    probes = ['utf16_vs_codepoint_member_order', 'disturbance_between_constructions', 'no_contributing_property_v4', 'hash_preference_applied', 'non_preferred_single_hash', 'non_preferred_several_hashes_first_wins', 'extension_with_float', 'custom_observable',
+    probes = ['construction_refused_during_id_generation', 'utf16_vs_codepoint_member_order', 'disturbance_between_constructions', 'no_contributing_property_v4', 'hash_preference_applied', 'non_preferred_single_hash', 'non_preferred_several_hashes_first_wins', 'extension_with_float', 'custom_observable',
               'equal_contrib_different_noncontrib', 'near_miss_different_id', 'string_needing_escape', 'astral_or_bmp_boundary',
               'route_bundle_member', 'route_memory_store', 'uuid4_stream_differs', 'hash_names_respelled', 'falsy_contributing_value']
     rule = ('plans: 6-14 items (a 2.1 observable type incl. two registered custom observables, contributing and non-contributing values with '
@@ -391,6 +391,20 @@ class C06(Profile):
         world.clock.set(1900000000000000, mode='tick', step=1000)
         what = op['what']
         stamp = {'created': '2020-01-01T00:00:00.000Z', 'modified': '2020-01-01T00:00:00.000Z', 'revoked': False}
+        if what == 'refused_in_id_generation':
+            # a construction that is refused half-way through the computation of its id (a number the canonical form cannot
+            # express): whatever that leaves behind must not reach the next id
+            k = op['perm'] % 4
+            bad = [lambda: s.v21.AutonomousSystem(number=10 ** 400),
+                   lambda: s.v21.File(name='f', extensions={'extension-definition--' + C.mkuuid(1, 'c06bad'): {
+                       'extension_type': 'property-extension', 'a': 'text before', 'n': float('nan')}}),
+                   lambda: s.v21.NetworkTraffic(protocols=['tcp'], src_ref=C.REF_IPV4, extensions={'extension-definition--' + C.mkuuid(2, 'c06bad'): {
+                       'extension_type': 'property-extension', 'list': [1, 2, float('inf')]}}),
+                   lambda: s.parse({'type': 'autonomous-system', 'spec_version': '2.1', 'number': -(10 ** 400), 'name': 'x'})][k]
+            tag = call(bad).tag
+            world.probe('construction_refused_during_id_generation' if tag != 'ok' else 'disturbance_between_constructions')
+            world.log(op='disturb', what=what, k=k, outcome=tag)
+            return
         base = call(lambda: cls(allow_custom=True, **dict(props, **stamp)))      # a versionable observable (custom created/modified/revoked)
         tag = 'base-failed'
         if base.ok:
